@@ -380,14 +380,15 @@ class Response:
 
         self.send_headers()
 
-        if self.is_chunked():
-            chunk_size = "%X\r\n" % nbytes
-            self.sock.sendall(chunk_size.encode('utf-8'))
+        # an empty chunk would be read as the end of the response
         if nbytes > 0:
+            if self.is_chunked():
+                chunk_size = "%X\r\n" % nbytes
+                self.sock.sendall(chunk_size.encode('utf-8'))
             self.sock.sendfile(respiter.filelike, offset=offset, count=nbytes)
-
-        if self.is_chunked():
-            self.sock.sendall(b"\r\n")
+            if self.is_chunked():
+                self.sock.sendall(b"\r\n")
+            self.sent += nbytes
 
         os.lseek(fileno, offset, os.SEEK_SET)
 
